@@ -48,6 +48,8 @@ pub fn run(ctx: &Ctx) {
         b.push(Block::new(Universe::new("U_pairs{a,b}^<=4", &["a", "b"], 4, 2, false), vec![Cfg::new(R | X), Cfg::with(R | X, 2, 1)], "r+x, r+x(2,1)"));
         b.push(Block::new(u_kind_pairs(2, 2, false), vec![Cfg::new(0), Cfg::new(X), Cfg::new(R | X | NE)], "{}, x, r+x+ne"));
         b.push(Block::new(u_runs(), k2.clone(), "Lambda<=2"));
+        b.push(Block::new(u_kind_triples(), vec![Cfg::new(0), Cfg::new(X), Cfg::new(R | X | NE), Cfg::new(E | U)], "{}, x, r+x+ne, e+u"));
+        b.push(Block::new(u_many(30), k1.clone(), "Lambda<=1"));
     } else {
         let rx = lattice_le(R | X, free, 2);
         b.push(Block::new(crate::props::c05::u_rep_single(&["a", "b"], 9), rx.clone(), "r+x + Lambda<=2"));
@@ -61,6 +63,8 @@ pub fn run(ctx: &Ctx) {
         b.push(Block::new(u_kind_pairs(2, 3, false), k1.clone(), "Lambda<=1"));
         b.push(Block::new(u_kind_pairs(3, 1, false), k2.clone(), "Lambda<=2"));
         b.push(Block::new(u_runs(), k3.clone(), "Lambda<=3"));
+        b.push(Block::new(u_kind_triples(), k2.clone(), "Lambda<=2"));
+        b.push(Block::new(u_many(120), k2.clone(), "Lambda<=2"));
         b.push(Block::new(Universe::from_words("curated(C07)", crate::props::c07::curated().into_iter().map(|v| v.join("\u{1}")).collect(), 1), lattice_all(0, free), "Lambda_full"));
     }
     // the curated block stores whole test-case lists joined by U+0001; split them back
